@@ -188,6 +188,7 @@ func init() {
 			}
 		}
 		c17Provider(c)
+		c17RemovedFirst(c)
 		c.usubRule("catch-up-bounds", func(fn *ssa.Function) bool {
 			return pkgRelOf(fn) == "l1" && strings.HasSuffix(p.File(fnPos(fn)), "/l1.go")
 		}, nil)
@@ -276,4 +277,49 @@ func stripLoad(v ssa.Value) ssa.Value {
 		}
 	}
 	return v
+}
+
+// c17RemovedFirst: a log the L1 node reports as removed always purges the buffer: in applyStateUpdate the test of
+// stateUpdate.Removed dominates every return (nothing — duplicate suppression, filters — can swallow a removal notice
+// before it is looked at), and the removal arm deletes every buffered entry at or above the removed height.
+func c17RemovedFirst(c *Ctx) {
+	p := c.P
+	f := p.Func("l1", "Client", "applyStateUpdate")
+	if f == nil {
+		c.und("removed-first", "Client.applyStateUpdate", "", "anchor not found")
+		return
+	}
+	c.saw(qname(f))
+	var iff *ssa.If
+	allInstrs(f, func(in ssa.Instruction) {
+		if i, ok := in.(*ssa.If); ok && iff == nil && strings.HasSuffix(term(i.Cond), ".Removed") {
+			iff = i
+		}
+	})
+	if iff == nil {
+		c.viol("removed-first", "applyStateUpdate", p.Pos(fnPos(f)), "applyStateUpdate no longer branches on stateUpdate.Removed")
+		return
+	}
+	ok := true
+	for _, ret := range returnsOf(f) {
+		if !dominatesInstr(iff, ret.Ret) {
+			ok = false
+		}
+	}
+	c.check(ok, "removed-first", "applyStateUpdate: Removed tested on every path", p.Pos(posOf(iff, f)), "the Removed test dominates every return", "applyStateUpdate can return before looking at stateUpdate.Removed: a removal notice (which carries the same fields as the log it revokes) is swallowed, the reorged-out entry stays buffered and is later recorded as the L1 head")
+	// the removal arm deletes with l1BlockNumber >= removed height
+	del := false
+	allInstrs(f, func(in ssa.Instruction) {
+		if call, isCall := in.(ssa.CallInstruction); isCall {
+			if b, isB := call.Common().Value.(*ssa.Builtin); isB && b.Name() == "delete" {
+				d := p.mustHoldAt(in)
+				o1, _ := everyDisjunctHas(d, []string{"$.Removed"})
+				o2, _ := everyDisjunctHas(d, []string{" >= stateUpdate.L1RefHeight)"}, []string{"^!", " < stateUpdate.L1RefHeight)"}, []string{"(stateUpdate.L1RefHeight <= "})
+				if o1 && o2 {
+					del = true
+				}
+			}
+		}
+	})
+	c.check(del, "removed-first", "applyStateUpdate: removal arm", p.Pos(fnPos(f)), "deletes every buffered entry at or above the removed L1 height", "the removal arm no longer deletes the buffered entries at or above the removed height")
 }
